@@ -391,7 +391,8 @@ def check(run):
                 run.violation("R13", where_, f"`{f_.qualname}` places its vertices with `{ast.unparse(c_)[:60]}` and builds the mesh from the faces as they are: for a mirrored "
                                              f"placement (det < 0) every face then points inwards - negative volume, is_volume False - for everything built on it",
                               key=key_of("C15-R13", f_.qualname))
-    run.floor("creation functions that place raw vertices with a caller matrix", n13, 2)
+    if n13 == 0:
+        run.instance("R13", "trimesh/creation.py", "no creation function places raw vertices with transform_points and a caller matrix (placement through apply_transform re-winds by itself)", True, nontrivial=False)
     from ..interiorpt import hole_seed_rule
     hole_seed_rule(run, ix, "R11", "C15")
     from ..rigidrule import rigid_rule
